@@ -64,7 +64,7 @@ def locked_make(targets, timeout=1500):
         if gen.returncode != 0 and "_error" not in gen_report:
             gen_report["_error"] = gen.stderr[-800:]
         subprocess.run([str(ROOT / "harness" / "mkproject.sh"), str(COQ)], capture_output=True)
-        p = subprocess.run(["timeout", str(timeout), "make", "-j16"] + targets, cwd=COQ, capture_output=True, text=True)
+        p = subprocess.run(["timeout", str(timeout), "make", "-j" + os.environ.get("VERIF_JOBS", "16")] + targets, cwd=COQ, capture_output=True, text=True)
         return p.returncode, p.stdout[-4000:] + p.stderr[-4000:], gen_report
 
 
@@ -105,7 +105,7 @@ def check_properties_file(pid, workdir):
     return p.returncode == 0 and len(blocks) == len(names), recs, out[-1500:]
 
 
-def run_workers(pid, cases, hashseeds, extra_env=None, jobs=16):
+def run_workers(pid, cases, hashseeds, extra_env=None, jobs=int(os.environ.get("VERIF_JOBS", "16"))):
     """Run impl on all cases for each hash seed.  Returns list of (case_index, hashseed, obs)."""
     env = dict(os.environ)
     env["PYTHONPATH"] = f"{lib.REPO}:{ROOT / 'harness' / 'shims'}:{ROOT / 'harness'}"
